@@ -11,22 +11,42 @@ META = {
             "witness of the one residual defect. The model is tied to the Rust code, and the Rust code to the spec, by "
             "generated transformers x uses run through Transform::try_new/transform directly and through define-syntax with "
             "quoted templates in a Vm, each case in a worker process under a wall budget and an address-space limit.",
-    "note": "Closed theorems: soundness (first matching rule, earlier rules do not match, expansion = R7RS instantiation) for "
-            "every transformer accepted by try_new in which the ellipsis occurs in no pattern and no template "
-            "(soundness_noEllipsis_partial, with rule selection rule_selection_partial / rule_selection_gapfree and "
-            "accepted_patterns_wellformed); pattern_match terminates on every input (patternMatch_terminates); the pinned "
-            "expand loops on a template `(a ...)` whose `a` is not ellipsis-bound and fix ff58560 rejects that definition "
-            "(expand_diverges_without_definition_check, definition_check_rejects_diverging_template). The full statement "
-            "T17.1 is FALSE for the code (soundness_fails_at_witness: `(_ a ... b)` declines a use with no item for `a`, a "
-            "later rule then fires; pinned by the unit test expansion_edge_cases, recorded as a known finding with the "
-            "decidable guard GapFree). NOT closed theorems: soundness for patterns/templates with ellipsis (trailing "
-            "ellipsis, ellipsis followed by a fixed tail, nested ellipsis, custom ellipsis) and termination of expand for "
-            "accepted transformers — these are carried by the correspondence only: generated transformers (1-3 rules, "
-            "depth 3, literals, underscore, custom ellipsis, ellipsis depth 0-2, fixed tails; templates reusing, dropping, "
-            "duplicating, nesting variables) x matching and non-matching uses, implementation vs the independent R7RS "
-            "matcher/instantiator Spec.Match and vs the line-by-line model, each case in a worker under a wall budget. "
-            "Hygiene renaming is outside the property ('up to the renaming that hygiene would add'). Trusted: Lean kernel; "
-            "axioms propext, Classical.choice, Quot.sound.",
+    "note": "Closed theorems (T17.1 soundness = first matching rule, earlier rules do not match per R7RS, expansion = R7RS "
+            "instantiation unless the spec answers `mismatch`, i.e. ellipsis variables of one sub-template matched different "
+            "numbers of items — the uses the property excludes; every class predicate is a decidable Bool function of the "
+            "transformer): (1) no ellipsis in any pattern or template: soundness_noEllipsis_partial; (2) trailing ellipsis "
+            "`(_ p1..pn x ...)`: soundness_trailingEllipsis_partial (class TrailingEllipsis; no guard needed: "
+            "trailingEllipsis_gapFree); (3) ellipsis followed by a fixed tail `(_ p1..pn x ... q1..qm)`, the len()+2 hand-off: "
+            "soundness_ellipsisThenTail_partial (class EllipsisThenTail, guard GapFree); (4) a sub-pattern under the ellipsis "
+            "`(_ p1..pn P ... q1..qm)` with templates `((a b) ...)`, `(a ...) (b ...)`, …: soundness_subpatternEllipsis_partial "
+            "(class SubpatternEllipsis, guard GapFree); (5) literals, `_`, data, a custom ellipsis identifier are allowed in "
+            "all of (1)-(4) (the classes are stated for the transformer's own ellipsis and literal list); general form "
+            "soundness_depthOne_partial (class DepthOne: ellipsis depth <= 1 anywhere in the patterns, also inside nested "
+            "lists, templates built from groups `U ...` with U ellipsis-free, at least one and no repeated ellipsis variable "
+            "per group, several groups per list allowed; guard GapFree) and soundness_depthOne_exact_partial (explicit "
+            "decidable hypothesis CountsAgree on the use: then transform = ok e implies specExpand = ok e). "
+            "(6) nested ellipsis (depth 2) is rejected at definition, and in fact EVERY transformer try_new accepts is in "
+            "DepthOne (accepted_depthOne, derived from check_pattern_support / check_template_syntax / "
+            "check_template_support and Pattern::build; witnesses definition_check_rejects_nested_ellipsis), hence "
+            "soundness_gapfree_partial / soundness_gapfree_exact_partial: T17.1 for every accepted transformer and every use "
+            "with the single decidable guard GapFree (the known finding) — no class hypothesis left. "
+            "Rule selection for every accepted transformer: rule_selection_partial / rule_selection_gapfree / "
+            "accepted_patterns_wellformed. T17.2: pattern_match terminates on every input (patternMatch_terminates); expand "
+            "terminates for every rule of every transformer accepted by try_new with the explicit fuel "
+            "expandFuel T n = 2*(n+1)*|T| (n bindings) (expand_terminates), transform terminates with fuel "
+            "max(3|u|+1, expandFuel template |u|) and with the driver's useFuel (transform_terminates, "
+            "transform_terminates_driver_fuel); the pinned expand loops on `(a ...)` with `a` not ellipsis-bound and fix "
+            "ff58560 rejects that definition (expand_diverges_without_definition_check, "
+            "definition_check_rejects_diverging_template). The full statement T17.1 is FALSE for the code "
+            "(soundness_fails_at_witness: `(_ a ... b)` declines a use with no item for `a`, a later rule then fires; pinned "
+            "by the unit test expansion_edge_cases, recorded as a known finding with the decidable guard GapFree). NOT closed "
+            "theorems: T17.1 on the uses GapFree excludes (there it is false, see the finding); that the model is the Rust "
+            "code; T17.3 (the expansion driver in compile.rs) — carried by the correspondence only: generated "
+            "transformers (1-3 rules, depth 3, literals, underscore, custom ellipsis, ellipsis depth 0-2, fixed tails; templates "
+            "reusing, dropping, duplicating, nesting variables) x matching and non-matching uses, implementation vs the "
+            "independent R7RS matcher/instantiator Spec.Match and vs the line-by-line model, each case in a worker under a wall "
+            "budget. Hygiene renaming is outside the property ('up to the renaming that hygiene would add'). Trusted: Lean "
+            "kernel; axioms propext, Classical.choice, Quot.sound.",
     "technique": "Lean 4 proof (model of transform.rs vs R7RS matcher/instantiator) + generated model-vs-implementation and implementation-vs-spec correspondence, hang-safe",
 }
 MODULE = "Marwood.Proofs.C17"
@@ -39,6 +59,22 @@ THEOREMS = [
     "Marwood.Proofs.C17.patternMatch_terminates",
     "Marwood.Proofs.C17.expand_diverges_without_definition_check",
     "Marwood.Proofs.C17.definition_check_rejects_diverging_template",
+    "Marwood.Proofs.C17.rule_selection_partial",
+    "Marwood.Proofs.C17.rule_selection_gapfree",
+    "Marwood.Proofs.C17.accepted_patterns_wellformed",
+    "Marwood.Proofs.C17.soundness_trailingEllipsis_partial",
+    "Marwood.Proofs.C17.soundness_ellipsisThenTail_partial",
+    "Marwood.Proofs.C17.soundness_subpatternEllipsis_partial",
+    "Marwood.Proofs.C17.soundness_depthOne_partial",
+    "Marwood.Proofs.C17.soundness_depthOne_exact_partial",
+    "Marwood.Proofs.C17.trailingEllipsis_gapFree",
+    "Marwood.Proofs.C17.accepted_depthOne",
+    "Marwood.Proofs.C17.soundness_gapfree_partial",
+    "Marwood.Proofs.C17.soundness_gapfree_exact_partial",
+    "Marwood.Proofs.C17.definition_check_rejects_nested_ellipsis",
+    "Marwood.Proofs.C17.expand_terminates",
+    "Marwood.Proofs.C17.transform_terminates",
+    "Marwood.Proofs.C17.transform_terminates_driver_fuel",
 ]
 
 _GAP = {}
